@@ -85,6 +85,8 @@ struct vthread {
     int prio;
     void *(*fn) (void *);
     void *arg;
+    long vid;                   /* virtual thread id handed to pdsh as its pthread_t */
+    int vid_reused;             /* the id belonged to an earlier, finished thread */
 };
 static struct vthread th[MAXT];
 static int nth;
@@ -173,14 +175,33 @@ static struct vmutex *mutex_of(void *addr)
 }
 static const char *cond_name(void *c) { return c == verif_tc_cond() ? "tc" : "c"; }
 
+/* Thread ids.  pdsh never sees the real pthread_t: pthread_create hands out a VIRTUAL id, so that a run does
+ * not depend on which ids glibc happens to reuse.  Like NPTL (whose pthread_t is the address of a cached
+ * thread descriptor), the id of a finished detached thread is reused by the next thread created (LIFO):
+ * using a stale id after the thread has ended -- undefined behaviour in POSIX -- reaches the thread that
+ * owns the id NOW, deterministically. */
+static long free_vids[MAXT], nfree_vids, next_vid = 1;
+#define VID_HANDLE(v) ((pthread_t) (0x7a000000UL + 64UL * (unsigned long) (v)))
+static long vid_alloc(int *reused)
+{
+    if (nfree_vids > 0) { *reused = 1; return free_vids[--nfree_vids]; }
+    *reused = 0;
+    return next_vid++;
+}
+static void vid_release(struct vthread *t)
+{
+    if (t->vid > 0 && nfree_vids < MAXT) free_vids[nfree_vids++] = t->vid;
+}
 static struct vthread *thread_of(pthread_t p)
 {
     int i;
-    /* newest first: the pthread_t of a finished (detached) thread may be reused by a later one */
+    struct vthread *dead = NULL;
     for (i = nth - 1; i >= 1; i--)
-        if (pthread_equal(th[i].real, p))
-            return &th[i];
-    return NULL;
+        if (th[i].vid > 0 && VID_HANDLE(th[i].vid) == p) {
+            if (th[i].alive) return &th[i];
+            if (!dead) dead = &th[i];
+        }
+    return dead;
 }
 
 /* ------------------------------------------------------------------ transport helpers */
@@ -362,7 +383,8 @@ static int apply(struct vthread *t, int spurious, int inl)
         pthread_attr_setdetachstate(&at, PTHREAD_CREATE_DETACHED);
         pthread_attr_setstacksize(&at, 1 << 20);
         if (__real_pthread_create(&c->real, &at, tramp, c) != 0) sched_bug("real pthread_create failed");
-        *(pthread_t *) o->obj = c->real;
+        c->vid = vid_alloc(&c->vid_reused);
+        *(pthread_t *) o->obj = VID_HANDLE(c->vid);
         if (!q) { evhdr(t, inl); fprintf(stdout, "create %s\n", c->name); }
         /* the new thread runs to its first scheduling point before anything else happens */
         c->eager = 1;
@@ -428,13 +450,14 @@ static int apply(struct vthread *t, int spurious, int inl)
         struct vthread *x = thread_of(*(pthread_t *) o->obj);
         int hit = 0;
         if (x && x->alive && (x->pend.kind == OP_POLL || x->pend.kind == OP_CONNEND)) { x->interrupted = 1; hit = 1; }
-        if (!q) { evhdr(t, inl); fprintf(stdout, "kill %s %ld %d\n", x ? x->name : "?", o->a, hit); }
+        if (!q) { evhdr(t, inl); fprintf(stdout, "kill %s %ld %d%s\n", x ? x->name : "?", o->a, hit,
+                                          x && x->vid_reused ? " reused-id" : ""); }
         o->ret = 0;
         return 1;
     }
     case OP_CANCEL: {
         struct vthread *x = thread_of(*(pthread_t *) o->obj);
-        if (x) x->alive = 0;    /* every blocking wrapped call is a cancellation point */
+        if (x && x->alive) { x->alive = 0; vid_release(x); }    /* every blocking wrapped call is a cancellation point */
         if (!q) { evhdr(t, inl); fprintf(stdout, "cancel %s\n", x ? x->name : "?"); }
         o->ret = 0;
         return 1;
@@ -664,6 +687,8 @@ static struct vthread *pick_and_apply(void)
     if (nR == 0) {
         if (nt < 0) finish("deadlock", 0);
         ck = 2;
+        /* a recorded schedule lists this forced tick too */
+        if (choice_pos < nchoices && strcmp(choices[choice_pos], "t") == 0) choice_pos++;
     } else {
         /* 1. listed choice */
         int have = 0;
@@ -775,6 +800,7 @@ static void *tramp(void *p)
     sem_wait(&me->sem);
     me->fn(me->arg);
     me->alive = 0;
+    vid_release(me);
     me->pend.kind = OP_NONE;
     if (trace_inline) fprintf(stdout, "I %s end\n", me->name);
     if (me->eager) { me->eager = 0; sem_post(&handback); return NULL; }
